@@ -20,6 +20,10 @@ class HarnessBug(Exception):
     pass
 
 
+class NoSuchOutput(Exception):
+    """A read of 'the n-th write output' when no write has succeeded yet: the op is skipped."""
+
+
 def corpus():
     global _CORPUS
     if _CORPUS is None:
@@ -345,6 +349,8 @@ class Env:
         self.objs = {}
         self.convs = {}
         self.last_dump = {}
+        self.outputs = []
+        self.resolved_doc = None
         self.prefix = _pycaption_prefix()
 
     def obj(self, op, table):
@@ -382,7 +388,15 @@ class Env:
 def _do(env, op):
     k = op["kind"]
     if k == "read":
-        text = doc_text(op["doc"])
+        d = op["doc"]
+        if isinstance(d, dict) and "from_write" in d:
+            # the document is what the n-th successful write of this history returned (a conversion chain)
+            if not env.outputs:
+                raise NoSuchOutput()
+            text = env.outputs[d["from_write"] % len(env.outputs)]
+            env.resolved_doc = text
+        else:
+            text = doc_text(d)
         reader = env.obj(op, env.R)
         call = dict(op.get("call") or {})
         if op.get("conv"):
@@ -402,6 +416,16 @@ def _do(env, op):
         cs = env.sets[op["in"]]
         writer = env.obj(op, env.W)
         call = dict(op.get("call") or {})
+        # "the n-th language the set actually has", resolved when the op executes
+        for key, idx in (("force", "force_idx"), ("lang", "lang_idx")):
+            if idx in call:
+                n = call.pop(idx)
+                try:
+                    langs = list(cs.get_languages())
+                except Exception:
+                    langs = []
+                if langs:
+                    call[key] = langs[n % len(langs)]
         if op.get("conv"):
             if call:
                 raise HarnessBug("converter write takes no call kwargs")
@@ -412,6 +436,7 @@ def _do(env, op):
             text = writer.write(cs, **call)
         if not isinstance(text, str):
             text = "<non-str %s>" % type(text).__name__
+        env.outputs.append(text)
         return {"text": text}
     if k == "edit":
         return {"effect": apply_edit(env.sets[op["in"]], op["edit"], op.get("args") or {})}
@@ -442,6 +467,7 @@ def run_history(job):
             rec["changed"] = env.snapshot_changes()
             records.append(rec)
             continue
+        env.resolved_doc = None
         try:
             if hook is not None:
                 with hook:
@@ -449,6 +475,8 @@ def run_history(job):
             else:
                 res = _do(env, op)
             rec.update(res)
+        except NoSuchOutput:
+            rec["status"] = "skipped"
         except InjectedFault as e:
             rec["status"] = "injected"
             rec["exc"] = "InjectedFault"
@@ -458,6 +486,8 @@ def run_history(job):
             rec["status"] = "raised"
             rec["exc"] = type(e).__name__
             rec["msg"] = str(e)[:300]
+        if env.resolved_doc is not None:
+            rec["resolved_doc"] = env.resolved_doc
         if hook is not None:
             rec["lines"] = hook.count
             if hook.fired_at:
